@@ -123,6 +123,15 @@ def id_is_v4_at(ctx, an, bb):
                         some = v4 = True
         if c.k == "discr" and P.match(c.a[0], IDCALL) is not None and allowed == {"Some"}:
             some = True
+        # `let id = self.id().ok_or(E)?;`
+        if c.k == "discr" and allowed and allowed <= {"Continue", "Ok"}:
+            y = strip(c.a[0])
+            if y.k == "call" and y.a[0].name == "branch" and y.a[1]:
+                y = strip(y.a[1][0])
+            while y.k == "call" and y.a[0].name in ("ok_or", "ok_or_else", "map_err") and y.a[1]:
+                y = strip(y.a[1][0])
+            if P.match(y, IDCALL) is not None:
+                some = True
         if c0.k == "call" and c0.a[0].name in ("eq", "ne") and len(c0.a[1]) == 2:
             sides = [strip(x) for x in c0.a[1]]
             idv = [x for x in sides if any(P.match(y, IDCALL) is not None for y in x.walk())]
@@ -408,14 +417,22 @@ def framed_by_append(ctx, g, want_sig, flag_param, out_param):
     return problems
 
 
-def framed_flat(ctx, g, want_sig, out_param):
+def framed_flat(ctx, g, want_sig, out_param, out_local=None):
     """the same verdict as framed_by_append, on g with every local callee
     spliced in: `out` receives Header{list, len(S)} then S, where S is a fresh
-    buffer that receives exactly [signature] seq (key raw-value)* of self"""
+    buffer that receives exactly [signature] seq (key raw-value)* of self.
+    out: the parameter out_param, the local out_local of the flattened g, or
+    (both None) the local buffer that g returns."""
     fg = ctx.flat(g)
     an = ctx.an(fg)
     problems = []
-    if out_param is None:
+    if out_local is not None:
+        out = out_local
+        odef = shapes.def_expr(an, out)
+        if not (odef is not None and odef.k == "call" and odef.a[0].name in ("new", "with_capacity")):
+            problems.append("output buffer is not fresh")
+        out_root, out_via = out, False
+    elif out_param is None:
         rets = [r for r in an.defs().get(0, []) if r[0] in an.cfg.succ]
         out = None
         if len(rets) == 1 and getattr(rets[0][2], "rv", None) is not None and rets[0][2].rv.kind == "use":
@@ -443,6 +460,24 @@ def framed_flat(ctx, g, want_sig, out_param):
     problems += ps
     problems += emit.check_framed(ctx, fg, stream, out_root, out_via)
     return problems
+
+
+def record_emissions(ctx):
+    """(pre, inl): the emissions of the record's own encoding [signature, seq |
+    key, value per pair], taken from <Enr as Encodable>::encode with its helpers
+    spliced in - or None if encode is not the framed stream (reported by the
+    FORM/LAYOUT rules)"""
+    encs = [x for x in ctx.facts.fns if x.name == "encode" and (x.impl_trait or "").endswith("alloy_rlp::Encodable") and x.impl_self and x.impl_self.get("adt") == "Enr"]
+    if len(encs) != 1 or framed_flat(ctx, encs[0], True, 2):
+        return None
+    fg = ctx.flat(encs[0])
+    an = ctx.an(fg)
+    em = emit.sink_emissions(ctx, fg, 2, True)
+    raws = [e for e in em if e.kind == "raw"]
+    tgt = an.operand_target(raws[0].term.args[1])
+    stream = shapes.root_local(an, tgt[0])
+    sem = emit.sink_emissions(ctx, fg, stream, False)
+    return [e for e in sem if e.loop is None], [e for e in sem if e.loop is not None]
 
 
 def reported_rule(ctx, report, f):
